@@ -18,12 +18,12 @@ LEVEL = 'exploration'
 TECHNIQUE = ('stateful / history-based: Hypothesis-generated operation sequences over the public edit API (handles into '
              'nested sub-edits, bursts of refinement without reads) and bounded-exhaustive interleavings on fixed pairs, '
              'x quiet/colour printer settings, compared with a reference run under the canonical driver')
-RULE = ("A case is (pair, options, printer config {quiet, colour}, history). The history is a list of operations "
+RULE = ("[also: every has_non_zero_cost() answer given during a history is compared with the edit's final cost; a family of lists of records with long keys exercises cost ties in the last alignment cell; a high-volume 'light' job (record lists and lists of variants of one or two base records) compares only three drivers: refine to the end, list sub-edits first then refine, TreeNode.diff] A case is (pair, options, printer config {quiet, colour}, history). The history is a list of operations "
         "[bounds | tighten xk with no read in between | is_complete | valid | has_non_zero_cost | edits (sub-edits join "
         "the handle pool, so nested edits are driven directly and out of order) | edits twice], each applied to a handle "
         "drawn from the pool (initially the root edit). Generated: up to 30 (quick) / 80 (thorough) operations with rule "
         "weights favouring refinement bursts, over C01 pairs and a nested-list generator (lists of lists of lists). "
-        "Bounded exhaustive: for 40 fixed small pairs all sequences of the five root operations up to length 4 (quick) / "
+        "Bounded exhaustive: for 41 fixed small pairs all sequences of the five root operations up to length 4 (quick) / "
         "5 (thorough). History-free sub-check: diff(), edited_cost(), get_all_edits() under every printer configuration, and their totals against the canonical driver's final cost. "
         "Oracle: no exception escapes any operation; after finishing with the canonical driver the final cost and the "
         "script signature equal those of a fresh copy refined by the canonical driver under the default printer. "
@@ -36,7 +36,7 @@ ASSUMPTIONS = [
 ]
 MANIFEST_TEXT = ("History exploration of the public edit protocol: random operation sequences on the root edit and on nested "
                  "sub-edit handles (including refinement bursts with no interleaved reads, the pattern the library itself "
-                 "uses when quiet), all interleavings of the five root operations up to a bound on 40 fixed pairs, and the "
+                 "uses when quiet), all interleavings of the five root operations up to a bound on 41 fixed pairs, and the "
                  "library's own drivers under each printer configuration; each compared with a canonical reference run.")
 MANIFEST_NOTE = "Trusts the reference run (canonical driver, default printer) on a fresh copy as the expected result."
 DESIGN_REF = 'DESIGN.md section 3, C05'
@@ -59,6 +59,10 @@ FIXED_PAIRS = [
     ([True, [False]], [[True], False]), ({'a': None}, {'a': ''}), ([[[]]], [[[[]]]]), ([1, 'a', None], []),
     ([[1, [2]], [3]], [[1, [2, 2]], [3, 3]]), ({'a': [], 'b': {}}, {'a': {}, 'b': []}), ([[2, 1]], [[1, 2]]),
     ([['a'], ['b'], ['c']], [['c'], ['b'], ['a']]),
+    # a list of records whose alignment has an exact cost tie next to the last cell while the last pair's edit is still open
+    # (input taken from the demonstration of seeded change C05-r3-m1; random generation meets such ties about once in 20000)
+    ([{"beta_key": "eef"}, {"alpha_key": "efd", "beta_key": "f", "gamma_key": "gbhbefa"}],
+     [{"gamma_key": "h", "alpha_key": "d", "beta_key": "h"}, {"beta_key": "eef"}, {"beta_key": "h", "gamma_key": "fea"}]),
 ]
 
 
@@ -79,7 +83,7 @@ def histories(draw, max_ops):
 def cases(draw, kind, max_ops, max_leaves):
     base = draw(gen.json_cases(max_leaves, 4) if kind == 'json' else
                 (gen.skewed_cases(6) if kind == 'skewed' else
-                 (gen.padded_cases() if kind == 'padded' else gen.nested_list_cases())))
+                 (gen.padded_cases() if kind == 'padded' else (gen.record_cases() if kind == 'records' else gen.nested_list_cases()))))
     return {'a': base['a'], 'b': base['b'], 'ds': base['ds'], 'le': base['le'], 'quiet': draw(st.booleans()),
             'color': draw(st.booleans()), 'history': draw(histories(max_ops))}
 
@@ -95,11 +99,18 @@ def jobs(tier):
         js.append({'kind': 'nested', 'n': n_nested, 'max_ops': ops, 'max_leaves': 0, 'shard': s})
         js.append({'kind': 'skewed', 'n': max(8, n_nested // 10), 'max_ops': 10, 'max_leaves': 0, 'shard': s})
         js.append({'kind': 'padded', 'n': max(60, n_nested // 3), 'max_ops': 10, 'max_leaves': 0, 'shard': s})
+        js.append({'kind': 'records', 'n': 40 if tier == 'quick' else 1500, 'max_ops': 6, 'max_leaves': 0, 'shard': s})
         js.append({'kind': 'exhaustive', 'maxlen': exl, 'shard': s})
+        js.append({'kind': 'light', 'n': 250 if tier == 'quick' else 12000, 'shard': s})
     return js
 
 
 def run_job(job, seed, sink):
+    if job['kind'] == 'light':
+        strat = st.one_of(gen.record_cases(), gen.record_variant_cases()).map(
+            lambda c: {'a': c['a'], 'b': c['b'], 'ds': c['ds'], 'le': c['le'], 'light': True})
+        hyp_drive(strat, job['n'], seed, sink)
+        return
     if job['kind'] == 'exhaustive':
         i = 0
         for pi, (a, b) in enumerate(FIXED_PAIRS):
@@ -136,7 +147,37 @@ def has_nested_sequence(rec):
     return sum(1 for x in rec.all() if x.kind in ('ordered', 'unordered')) >= 2
 
 
+def check_light(case):
+    """Three drivers only (refine to the end; list the sub-edits first, then refine; TreeNode.diff), for volume."""
+    out = Outcome()
+    fam = {'family': 'json', **{k: case[k] for k in ('a', 'b', 'ds', 'le')}}
+    with guard('canonical driver'):
+        e = gen.build(fam, 'a').edits(gen.build(fam, 'b'))
+        common.full_tighten(e)
+        ref = e.bounds()
+    with guard('edits() first'):
+        e2 = gen.build(fam, 'a').edits(gen.build(fam, 'b'))
+        if isinstance(e2, CompoundEdit):
+            list(e2.edits())
+        common.full_tighten(e2)
+        c2 = e2.bounds()
+    with guard('diff()'):
+        ec = gen.build(fam, 'a').diff(gen.build(fam, 'b')).edited_cost()
+    if not ref.definitive():
+        out.fail('not-definitive', f"bounds {ref} after refinement to the end")
+    elif (c2.lower_bound, c2.upper_bound) != (ref.lower_bound, ref.upper_bound):
+        out.fail('history-changes-cost', f"final cost {c2} when the sub-edits are listed first, {ref} with the canonical driver")
+    elif ec != ref.upper_bound:
+        out.fail('driver-changes-cost:diff', f"diff().edited_cost() is {ec}, the edit refined by the canonical driver costs {ref.upper_bound}")
+    out.nontrivial = ref.upper_bound > 0 and isinstance(case['a'], list) and len(case['a']) >= 2
+    out.label('light')
+    out.info = {'cost': ref.upper_bound}
+    return out
+
+
 def check(case):
+    if case.get('light'):
+        return check_light(case)
     out = Outcome()
     fam = {'family': 'json', **{k: case[k] for k in ('a', 'b', 'ds', 'le')}}
     history = case.get('history', [])
@@ -156,6 +197,7 @@ def check(case):
             a, b = gen.build(fam, 'a'), gen.build(fam, 'b')
             e = a.edits(b)
         pool = [e]
+        answers = []
         burst = early_edits = False
         for step, (op, h, k) in enumerate(history):
             x = pool[h % len(pool)]
@@ -172,7 +214,7 @@ def check(case):
                 elif op == 'valid':
                     _ = x.valid
                 elif op == 'non_zero':
-                    x.has_non_zero_cost()
+                    answers.append((step, x, x.has_non_zero_cost()))
                 elif op in ('edits', 'edits2'):
                     if isinstance(x, CompoundEdit):
                         if not x.is_complete():
@@ -191,6 +233,15 @@ def check(case):
             common.full_tighten(e)
             probs = Problems()
             rec = walk(e, probs)
+        # whenever it was asked, has_non_zero_cost() must have told whether the edit's final cost is above zero
+        with guard('finish the edits that were asked has_non_zero_cost()'):
+            for step, x, ans in answers:
+                common.full_tighten(x)
+                fb = x.bounds()
+                if fb.definitive() and ans != (fb.upper_bound > 0):
+                    out.fail(f'has_non_zero_cost-wrong:{type(x).__name__}', f"history step {step}: {type(x).__name__}.has_non_zero_cost() answered {ans}, "
+                                                                          f"the edit's final cost is {fb.upper_bound}")
+                    break
         if rec.cost != ref_cost:
             out.fail('history-changes-cost', f"final cost {rec.cost} after the history, {ref_cost} with the canonical driver (quiet={quiet})")
         elif signature(rec) != ref_sig:
